@@ -1,6 +1,9 @@
 package gen
 
 import (
+	"encoding/binary"
+	"fmt"
+
 	"pgregory.net/rapid"
 
 	"verif/internal/xmpgen"
@@ -117,6 +120,14 @@ func GenInput(rt *rapid.T, xmpPacket func(*rapid.T) []byte) Input {
 		d := JPEGStream(segs, JPEGTail(rt))
 		return Input{Kind: "jpeg", Data: d, Sites: DiscoverSites(d), Exif: f}
 	}
+	if k == 7 && Chance(rt, "in.multipreview", 0.2) {
+		d, _ := MultiPreviewCR3(rt)
+		return Input{Kind: "cr3", Data: d, Sites: DiscoverSites(d)}
+	}
+	if (k == 3 || k == 4) && Chance(rt, "in.subifds", 0.15) {
+		d, _ := SubIFDsTIFF(rt)
+		return Input{Kind: "tiff", Data: d, Sites: DiscoverSites(d)}
+	}
 	f := GenExif(rt, Options{Unbuffered: true, MaxForeign: 4, Arrays: true})
 	payload := f.Enc.II
 	if rapid.Bool().Draw(rt, "in.mm") {
@@ -142,6 +153,114 @@ func GenInput(rt *rapid.T, xmpPacket func(*rapid.T) []byte) Input {
 		d := HEIFWith(rt, payload)
 		return Input{Kind: "heif", Data: d, Sites: DiscoverSites(d), Exif: f}
 	}
+}
+
+// MultiPreviewCR3: a camera-layout CR3 (moov, xpacket, then preview boxes) with 1..3 Canon preview uuid boxes whose PRVW
+// previews have different honest sizes (a reader object serves all of them in turn).
+func MultiPreviewCR3(rt *rapid.T) ([]byte, string) {
+	canon := &Box{Type: "uuid", Data: append([]byte{}, UUIDCanon...), Kids: []*Box{{Type: "CNCV", Data: make([]byte, 30)}}}
+	top := []*Box{Ftyp("crx ", 1, "crx ", "isom"), {Type: "moov", Kids: []*Box{canon}},
+		{Type: "uuid", Data: append(append([]byte{}, UUIDXPacket...), []byte("<x:xmpmeta xmlns:x=\"adobe:ns:meta/\"></x:xmpmeta>")...)}}
+	var sizes []int
+	for i, n := 0, rapid.IntRange(1, 3).Draw(rt, "mp.n"); i < n; i++ {
+		sz := rapid.SampledFrom([]int{0, 1, 16, 100, 2047, 2048, 2049, 5000, 70000}).Draw(rt, "mp.size")
+		sizes = append(sizes, sz)
+		f := make([]byte, 16)
+		binary.BigEndian.PutUint16(f[4:], 1)
+		binary.BigEndian.PutUint16(f[6:], uint16(rapid.SampledFrom([]int{160, 1620, 0, 0xffff}).Draw(rt, "mp.w")))
+		binary.BigEndian.PutUint16(f[8:], uint16(rapid.SampledFrom([]int{120, 1080, 0, 0xffff}).Draw(rt, "mp.h")))
+		binary.BigEndian.PutUint16(f[10:], 1)
+		binary.BigEndian.PutUint32(f[12:], uint32(sz))
+		data := make([]byte, sz)
+		for j := range data {
+			data[j] = byte(j*7 + i)
+		}
+		top = append(top, &Box{Type: "uuid", Data: append(append([]byte{}, UUIDPreview...), 0, 0, 0, 0, 0, 0, 0, 1), Kids: []*Box{{Type: "PRVW", Data: append(f, data...)}}})
+	}
+	top = append(top, &Box{Type: "mdat", Data: make([]byte, 64)})
+	var out []byte
+	for _, b := range top {
+		out = append(out, b.Serialise(len(out))...)
+	}
+	return out, fmt.Sprintf("previews %v", sizes)
+}
+
+// SubIFDsTIFF: a TIFF whose IFD0 carries a SubIFDs (0x014a) LONG array of 1..128 directory pointers: forward to small
+// well-formed directories, backwards (to IFD0 itself or into the header), or beyond the end of the file; optionally the
+// file ends right after IFD0. Returns the file and a description.
+func SubIFDsTIFF(rt *rapid.T) ([]byte, string) {
+	mm := rapid.Bool().Draw(rt, "sub.mm")
+	bo := binary.AppendByteOrder(binary.LittleEndian)
+	out := []byte("II*\x00\x08\x00\x00\x00")
+	if mm {
+		bo = binary.BigEndian
+		out = []byte("MM\x00*\x00\x00\x00\x08")
+	}
+	n := rapid.SampledFrom([]int{1, 2, 6, 7, 8, 9, 10, 12, 17, 40, 80, 128}).Draw(rt, "sub.count")
+	kind := rapid.SampledFrom([]string{"forward", "mixed", "backward", "beyond-eof"}).Draw(rt, "sub.kind")
+	// IFD0: Make (embedded), SubIFDs, Orientation
+	ifd0 := 8
+	arrayAt := ifd0 + 2 + 3*12 + 4
+	subAt := arrayAt + 4*n
+	if n == 1 {
+		subAt = arrayAt
+	}
+	out = bo.AppendUint16(out, 3)
+	out = bo.AppendUint16(out, 0x010f)
+	out = bo.AppendUint16(out, 2)
+	out = bo.AppendUint32(out, 4)
+	out = append(out, 'A', 'b', 'c', 0)
+	out = bo.AppendUint16(out, 0x0112)
+	out = bo.AppendUint16(out, 3)
+	out = bo.AppendUint32(out, 1)
+	out = bo.AppendUint16(out, 6)
+	out = bo.AppendUint16(out, 0)
+	out = bo.AppendUint16(out, 0x014a)
+	out = bo.AppendUint16(out, 4)
+	out = bo.AppendUint32(out, uint32(n))
+	ptr := func(i int) uint32 {
+		fwd := uint32(subAt + i*18)
+		switch kind {
+		case "forward":
+			return fwd
+		case "backward":
+			return uint32(rapid.SampledFrom([]int{0, 2, 8, 10, arrayAt}).Draw(rt, "sub.back"))
+		case "beyond-eof":
+			return uint32(subAt + 18*n + 1000 + i*7)
+		default:
+			switch rapid.IntRange(0, 3).Draw(rt, "sub.mix") {
+			case 0:
+				return uint32(rapid.SampledFrom([]int{0, 8, arrayAt}).Draw(rt, "sub.back"))
+			case 1:
+				return uint32(subAt + 18*n + 5000)
+			}
+			return fwd
+		}
+	}
+	if n == 1 {
+		out = bo.AppendUint32(out, ptr(0))
+	} else {
+		out = bo.AppendUint32(out, uint32(arrayAt))
+	}
+	out = bo.AppendUint32(out, 0) // next IFD
+	if n > 1 {
+		for i := 0; i < n; i++ {
+			out = bo.AppendUint32(out, ptr(i))
+		}
+	}
+	if !Chance(rt, "sub.cut", 0.3) {
+		for i := 0; i < n; i++ { // one-entry sub-directories: ImageWidth
+			out = bo.AppendUint16(out, 1)
+			out = bo.AppendUint16(out, 0x0100)
+			out = bo.AppendUint16(out, 3)
+			out = bo.AppendUint32(out, 1)
+			out = bo.AppendUint16(out, uint16(100+i))
+			out = bo.AppendUint16(out, 0)
+			out = bo.AppendUint32(out, 0)
+		}
+		out = append(out, make([]byte, 64)...)
+	}
+	return out, fmt.Sprintf("SubIFDs x%d %s mm=%v len=%d", n, kind, mm, len(out))
 }
 
 func indexOf(hay, needle []byte) int {
